@@ -144,7 +144,88 @@ def run_job(job):
                         vs[sig]["hist"] = hist[:i] + ["STOP", "OFFLINE-USER-OPS", "RESTART(%s)" % mode, "SETTLE"]
             finally:
                 w.close()
+    # ---- a stop request that lands INSIDE an intake step: before the k-th event of the batch is handed over
+    counts = _event_counts(drv, job, hist)
+    for i, n_ev in counts.items():
+        side = 0 if hist[i] == "IL" else 1
+        for k in range(min(n_ev, 4)):
+            for order in RESTART_ORDERS:
+                w = drv.make_world(job)
+                try:
+                    for a in hist[:i]:
+                        w.act(a)
+                    p_ = w.provs[side]
+                    inner = p_.events
+                    mgr = w.mgrs[hist[i]]
+
+                    def hooked(_inner=inner, _k=k, _mgr=mgr):
+                        j = 0
+                        for ev in _inner():
+                            if j == _k:
+                                _mgr.stop(forever=True, wait=False)
+                            j += 1
+                            yield ev
+                    p_.events = hooked
+                    try:
+                        w.act(hist[i])
+                    finally:
+                        p_.events = inner
+                    w.stop_engine()
+                    P.remaining_user_ops(w)
+                    mark = len(w.spurious)
+                    w.restart("intact")
+                    states += i + 2
+                    n_eval += 1
+                    bad = None
+                    try:
+                        w.settle(limit=150, order=order)
+                    except NoQuiescence:
+                        bad = ("noquiesce", {})
+                    if bad is None:
+                        j = P.judge(w)
+                        if j["busy"] and not base.get("busy"):
+                            bad = ("busy", {"pending": j["busy"]})
+                        elif not j["converged"]:
+                            bad = ("diverge", j["trees"])
+                        elif j["lost"]:
+                            bad = ("lost:" + ",".join(j["lost"]), j["trees"])
+                        elif [a for a in j["artefacts"] if a not in base["artefacts"]]:
+                            bad = ("artefact", j["trees"])
+                    if bad is not None:
+                        sig = "midstep:%s:%s" % (bad[0], digest(json.dumps(bad[1], sort_keys=True, default=repr)))
+                        if sig not in vs:
+                            vs[sig] = viol("restart-" + bad[0].split(":")[0], sig,
+                                           {"mode": "intact", "boundary": i, "stop_before_event": k, "base_hist": hist,
+                                            "observed": bad[1]})
+                            vs[sig]["hist"] = hist[:i] + ["%s(stop requested before event %d)" % (hist[i], k), "OFFLINE-USER-OPS",
+                                                          "RESTART(intact)", "SETTLE"]
+                finally:
+                    w.close()
     return _result(job, n_eval, states, 0, vs, None, hist)
+
+
+def _event_counts(drv, job, hist):
+    """number of events each intake step of the base run took in"""
+    out = {}
+    w = drv.make_world(job)
+    try:
+        cnt = [0]
+        for s_ in (0, 1):
+            inner = w.provs[s_].events
+
+            def counting(_inner=inner):
+                for ev in _inner():
+                    cnt[0] += 1
+                    yield ev
+            w.provs[s_].events = counting
+        for i, a in enumerate(hist):
+            cnt[0] = 0
+            w.act(a)
+            if a in ("IL", "IR") and cnt[0]:
+                out[i] = cnt[0]
+    finally:
+        w.close()
+    return out
 
 
 def _result(job, n_eval, states, gated, vs, note, hist):
